@@ -35,6 +35,15 @@ template <class M> struct MakeMap<M, 3> { // padded: extents [+ run-time padding
   }
 };
 
+template <class E> constexpr bool static_prod_small() {
+  unsigned long long p = 1;
+  for (size_t r = 0; r < E::rank(); ++r) {
+    const size_t s = E::static_extent(r);
+    if (s != Kokkos::dynamic_extent) { if (s > 4096) return false; p *= (s == 0 ? 1 : s); if (p > 4096) return false; }
+  }
+  return true;
+}
+
 // mapping value tokens:  ity layout pv R pat*R ctor e*R [s*R | dpv]
 template <class M, int LAY> M read_mapping(Toks &tk) {
   using T = typename M::index_type;
@@ -87,7 +96,10 @@ template <class M, int LAY> void run_map(long caseno, Toks &tk) {
       using ARR = Kokkos::Experimental::mdarray<int, E, L>;
       std::string a = "xxx";
       const i128 spn = to_i128(m.required_span_size());
-      if (spn >= 0 && spn <= 4096) {
+      // the instance is only instantiated for types whose static extents alone stay small (clang 14 crashes in C++2b on
+      // mdarray over extents<unsigned long, 7, 4294967295>)
+      constexpr bool small_type = static_prod_small<E>();
+      if constexpr (small_type) if (spn >= 0 && spn <= 4096) {
         const ARR arr(m);
         a.clear(); a += arr.is_unique() ? '1' : '0'; a += arr.is_exhaustive() ? '1' : '0'; a += arr.is_strided() ? '1' : '0';
       }
